@@ -14,7 +14,10 @@ def run(c):
     observer_design.run_replay(c, "C05")
     b = 2 if c.thorough else 1
     fams = [("removal", oe.fam_removal() + oe.fam_reentrant_unschedule(), b)]
-    oe.run_families(c, "C05", fams, bound=b, random_n=3000 if c.thorough else 300)
+    mixed = oe.fam_mixed_emitters()[:2]
+    sampled = [("running and never-started emitters side by side, both set orders", mixed + oe.reversed_orders(mixed),
+                6000 if c.thorough else 1500)]
+    oe.run_families(c, "C05", fams, bound=b, random_n=3000 if c.thorough else 300, sampled=sampled)
     c.cov["rule"] = ("executions of the real BaseObserver: bounded-preemption DFS (b=%d) on removal programs (external "
                      "thread / re-entrant from a callback, every stream position) + random programs" % b)
     c.assumptions += ["the scheduler's total order of trace lines is the logical clock of 'after the call returned'"]
